@@ -19,12 +19,12 @@ contract("tokens:TokenStream.peek", trusted=True, mutates=TS, requires=["ts_inv(
     raises=[], props=["C05"], note="the token after the current one; the stream is left as it was")
 contract("tokens:TokenStream.push", trusted=True, mutates=TS, requires=["ts_inv(self)", "is_tok(tok)"],
     ensures=["ts_inv(self)", "self.current == tok"], raises=[], props=["C05"])
-contract("tokens:TokenStream.expect", trusted=True, mutates=TS, requires=["ts_inv(self)"],
+contract("tokens:TokenStream.expect", mutates=TS, requires=["ts_inv(self)", "all(isinstance(t, TokenType) for t in typ)"],
     ensures=["ts_inv(self)", "self.current == self0.current"],
-    raises_iff=[("JSONPathSyntaxError", "not any(self.current.type_ == t for t in typ)")], raises_ensures=["ts_inv(self)"], props=["C05"])
-contract("tokens:TokenStream.expect_peek", trusted=True, mutates=TS, requires=["ts_inv(self)"],
+    raises_iff=[("JSONPathSyntaxError", "not any(self.current.type_ == t for t in typ)")], raises_ensures=["ts_inv(self)"], unfold=["py_eq"], props=["C05"])
+contract("tokens:TokenStream.expect_peek", mutates=TS, requires=["ts_inv(self)", "all(isinstance(t, TokenType) for t in typ)"],
     ensures=["ts_inv(self)", "self.current == self0.current"], raises=["JSONPathSyntaxError"], raises_ensures=["ts_inv(self)"], props=["C05"])
-contract("tokens:TokenStream.expect_peek_not", trusted=True, mutates=TS, requires=["ts_inv(self)"],
+contract("tokens:TokenStream.expect_peek_not", mutates=TS, requires=["ts_inv(self)", "isinstance(typ, TokenType)"],
     ensures=["ts_inv(self)", "self.current == self0.current"], raises=["JSONPathSyntaxError"], raises_ensures=["ts_inv(self)"], props=["C05"])
 
 P_REQ = ["wf_env(self.env)", "ts_inv(stream)"]
